@@ -591,6 +591,21 @@ func (e *Engine) evalCall(s *State, c *SpecCtx, n *ast.CallExpr) *SV {
 		md, _, ks := e.mapNames(mt)
 		h := e.specHeap(s, c, md, "(Array Int (Array "+ks+" Bool))")
 		return &SV{V: &Val{L: []string{app("ite", eq(m.V.L[0], "0"), "((as const (Array "+ks+" Bool)) false)", app("select", h, m.V.L[0]))}}, Sort: "(Array " + ks + " Bool)"}
+	case "setadd":
+		// setadd(S, k): the set S with k added (S a dom(...) value)
+		return &SV{V: &Val{L: []string{app("store", arg(0).V.L[0], arg(1).V.L[0], "true")}}, Sort: arg(0).Sort}
+	case "forallref":
+		// forallref(k, body): for every reference / integer k
+		id := n.Args[0].(*ast.Ident).Name
+		q := "q!" + id
+		c2 := *c
+		c2.Bound = map[string]*SV{}
+		for k, v := range c.Bound {
+			c2.Bound[k] = v
+		}
+		c2.Bound[id] = svInt(q)
+		body := e.evalBool(s, &c2, n.Args[1])
+		return svBool(fmt.Sprintf("(forall ((%s Int)) %s)", q, body))
 	case "bstr":
 		// bstr(s, i, n): the string made of the n bytes of slice s starting at index i
 		sl, ix, ln := arg(0), arg(1), arg(2)
